@@ -182,6 +182,16 @@ fn run<A: Alphabet>(case: &Case, tier_limit: usize, info: &mut CaseInfo) -> Opti
         scores.push(pssm.max_score() + 1.0);
         scores.push((pssm.min_score() + pssm.max_score()) / 2.0);
     }
+    // scores far outside any attainable range, up to the ends of f32 (the score argument has no bound)
+    for q in &case.queries {
+        if let Query::Value(v) = q {
+            let i = (v.0.abs() as usize) % 8;
+            if i < 6 {
+                scores.push([1e7f32, -1e7, 3e9, -3e9, f32::MAX, f32::MIN][i]);
+                info.class("query-at-extreme-score(|s|>=1e7)");
+            }
+        }
+    }
     scores.retain(|s| s.is_finite());
     scores.sort_by(|a, b| a.partial_cmp(b).unwrap());
     let mut prev: Option<(f32, f64)> = None;
@@ -261,7 +271,7 @@ impl Sub for Dist {
         "meme-dist"
     }
     fn rule(&self) -> &'static str {
-        "DNA width 1..8 (quick) / ..16 (thorough, meet-in-the-middle), protein 1..3 / ..4, plus wider matrices for the structural parts; library-made and arbitrary finite cells (|cell| <= 32, rows of equal cells, finite or -inf wildcard column; also cells confined to a short interval base + [0, 0.05..2.5) away from zero, so that all cells have one sign and may share one unit interval) x uniform / non-uniform / zero-entry / non-zero-wildcard backgrounds; 8..20 queries per matrix (attainable scores, midpoints, below min, above max, arbitrary) and up to 12 p-values; oracle: sf in [0,1] non-increasing, P(S>=s+d) <= pvalue(s) <= P(S>=s-d) against the exact enumeration with d=(M/2+1)/scale, pvalue monotone, pvalue(score(p)) <= p; non-trivial = exact oracle available, M >= 2, >= 3 distinct attainable scores and a query strictly inside (min, max)"
+        "DNA width 1..8 (quick) / ..16 (thorough, meet-in-the-middle), protein 1..3 / ..4, plus wider matrices for the structural parts; library-made and arbitrary finite cells (|cell| <= 32, rows of equal cells, finite or -inf wildcard column; also cells confined to a short interval base + [0, 0.05..2.5) away from zero, so that all cells have one sign and may share one unit interval) x uniform / non-uniform / zero-entry / non-zero-wildcard backgrounds; 8..20 queries per matrix (attainable scores, midpoints, below min, above max, arbitrary, and scores of magnitude 1e7 .. f32::MAX) and up to 12 p-values; oracle: sf in [0,1] non-increasing, P(S>=s+d) <= pvalue(s) <= P(S>=s-d) against the exact enumeration with d=(M/2+1)/scale, pvalue monotone, pvalue(score(p)) <= p; non-trivial = exact oracle available, M >= 2, >= 3 distinct attainable scores and a query strictly inside (min, max)"
     }
     fn cases(&self, tier: Tier) -> u64 {
         tier.pick(10_000, 300_000)
